@@ -178,7 +178,16 @@ def k5_case(ctx, inst, suite="K5.end_to_end"):
     if not solved:
         ctx.rep.count(suite, inst, nontrivial=False, hist=[cls, "unsolved"])
         return
-    sol = m.get_solution()
+    try:
+        sol = m.get_solution()
+    except Exception as e:               # solved, and then no routes: the input that does it is the replay
+        from fpv import common as _c
+        if isinstance(e, _c.Infra):
+            raise
+        ctx.rep.count(suite, inst, nontrivial=True, hist=[cls, "get_solution raised"])
+        ctx.violation(f"{cls}.solve() reported solved but get_solution() raised {type(e).__name__}: {str(e)[:160]}", inst,
+                      site=f"{cls}.get_solution:exception")
+        return None
     ctx.rep.cov["oracle_evaluations"] += 1
     key = models.route_key(cls)
     ctx.rep.count(suite, inst, nontrivial=len(sol[key]) >= 2, hist=[cls, "solved"] + (["constraints"] if inst.get("constraints") else [])
